@@ -706,7 +706,9 @@ class LeastSquare:
             Fraction(node) if isinstance(node, int) else node for node in newknotvector
         )
 
-        if fit_nodes and len(fit_nodes) > newnpts:
+        if fit_nodes is not None and len(fit_nodes) == 0:
+            fit_nodes = None  # No node to interpolate: the plain projection
+        if fit_nodes is not None and len(fit_nodes) > newnpts:
             raise NotImplementedError
         allknots = list(set(oldknots + newknots))
         allknots.sort()
